@@ -61,8 +61,11 @@ fn static_ports(case: &SemCase, st: &mut Stats) -> Result<bool, String> {
     Ok(any)
 }
 
-pub fn check(case: &SemCase, st: &mut Stats, ex: &Excl) -> Result<(), String> {
-    if crate::excl::find_excluded(&case.prog, ex).is_some() {
+/// `own` = exclusion rules of C17's own findings (they apply to everything); `ex` = those plus
+/// the rules of the miscompilation findings, which only the semantic comparison has to honour:
+/// the port discipline is checked on miscompiled shapes too.
+pub fn check(case: &SemCase, st: &mut Stats, ex: &Excl, own: &Excl) -> Result<(), String> {
+    if crate::excl::find_excluded(&case.prog, own).is_some() {
         st.count("excluded_program");
         return Ok(());
     }
@@ -73,6 +76,15 @@ pub fn check(case: &SemCase, st: &mut Stats, ex: &Excl) -> Result<(), String> {
     let used = static_ports(case, st)?;
     if used {
         st.count("programs_touching_split_port_memory");
+    }
+    if let Some(rule) = crate::excl::find_excluded(&case.prog, ex) {
+        // a shape with a known miscompilation: only the static port discipline is checked (what it
+        // does at run time may be wrong for the known reason, stray accesses included)
+        st.count(&format!("static_only:{}", rule));
+        if used {
+            st.nontrivial(pbt::hash_str(&format!("static|{}|{:?}", case.source(), case.opts().describe())));
+        }
+        return Ok(());
     }
     // dynamic discipline (emulator faults) and semantics (RefC) together
     let before = st.nontrivial.len();
@@ -91,10 +103,35 @@ pub fn check(case: &SemCase, st: &mut Stats, ex: &Excl) -> Result<(), String> {
     Ok(())
 }
 
+/// the subset of `ex` that comes from C17's own open findings
+pub fn own_rules(ex: &Excl) -> Excl {
+    let mut own = Excl::default();
+    for f in report::load_findings() {
+        if f.property == "C17" && f.status == "open" {
+            if let Some(e) = &f.exclusion {
+                for n in e.split(',') {
+                    if ex.has(n.trim()) {
+                        own.active.insert(n.trim().to_string());
+                    }
+                }
+            }
+        }
+    }
+    // known miscompilations that consist in a wrong operand address (the operand then also lies
+    // outside the variable's ports): same root cause, same rule
+    for n in ["short_array_shr8"] {
+        if ex.has(n) {
+            own.active.insert(n.to_string());
+        }
+    }
+    own
+}
+
 pub fn run(ctx: &mut RunCtx) -> i32 {
     let cases = ctx.cases(30_000, 1_000_000);
     let n_inits = ctx.tier.pick(6, 16);
     let (excl, known_seen) = super::activate_exclusions(ctx, "C17");
+    let own = own_rules(&excl);
     let (stats, failures, aborted) = pbt::run_sharded(
         ctx.seed,
         "C17",
@@ -102,11 +139,21 @@ pub fn run(ctx: &mut RunCtx) -> i32 {
         cases,
         4000,
         |shard| {
-            let mut cfg = cfg(shard);
-            cfg.excl = excl.clone();
-            pbt::strategy(move |g| sem::gen_case(g, &cfg, n_inits, &[0, 1], false))
+            // two thirds of the programs avoid every known miscompiled shape (they are compared
+            // with RefC); one third avoids only C17's own known shapes (static port check of all)
+            let mut cfg_sem = cfg(shard);
+            cfg_sem.excl = excl.clone();
+            let mut cfg_static = cfg(shard);
+            cfg_static.excl = own.clone();
+            pbt::strategy(move |g| {
+                if g.chance(1, 3) {
+                    sem::gen_case(g, &cfg_static, n_inits, &[0, 1], false)
+                } else {
+                    sem::gen_case(g, &cfg_sem, n_inits, &[0, 1], false)
+                }
+            })
         },
-        |case: &SemCase, st: &mut Stats| check(case, st, &excl),
+        |case: &SemCase, st: &mut Stats| check(case, st, &excl, &own),
     );
     let mut violations = super::take_regressions();
     for f in failures {
@@ -139,7 +186,7 @@ pub fn run(ctx: &mut RunCtx) -> i32 {
 pub fn replay_case(v: &serde_json::Value) -> Option<(bool, String)> {
     let case: SemCase = serde_json::from_value(v["case"].clone()).ok()?;
     let mut st = Stats::default();
-    match check(&case, &mut st, &Excl::default()) {
+    match check(&case, &mut st, &Excl::default(), &Excl::default()) {
         Ok(()) => Some((false, format!("{:?}", st.counters))),
         Err(r) => Some((true, r)),
     }
